@@ -2624,6 +2624,9 @@ public:
           /// any deallocated memory object.
           if (is_allocated) {
             set_bool_var_to_true(bv);
+          } else {
+            // unknown answer: the output is redefined anyway
+            operator-=(bv);
           }
         }
       }
